@@ -2898,6 +2898,13 @@ func (db *DB) importToLTX(ctx context.Context, r io.Reader) (ltx.Pos, error) {
 	// Prepend header back onto original reader.
 	r = io.MultiReader(bytes.NewReader(data), r)
 
+	// The page size of an existing database cannot be changed by an import.
+	// Reject it before the transaction file is published since applying it
+	// would fail halfway and stop the node.
+	if db.PageN() > 0 && db.pageSize != 0 && hdr.PageSize != db.pageSize {
+		return ltx.Pos{}, fmt.Errorf("import page size (%d) does not match existing database page size (%d)", hdr.PageSize, db.pageSize)
+	}
+
 	// Determine resulting position.
 	pos := db.Pos()
 	pos.TXID++
